@@ -18,6 +18,11 @@ func init() {
 		&slip.FuncDoc{
 			Name: "<",
 			Args: []*slip.DocArg{
+				{
+					Name: "number",
+					Type: "real",
+					Text: "The first number to compare.",
+				},
 				{Name: "&rest"},
 				{
 					Name: "numbers",
